@@ -351,9 +351,11 @@ func runInbound(spec connSpec, chunks [][]byte) (obs inObs, conn *gws.Conn, tap 
 	switch {
 	case isCE:
 		obs.Kind, obs.A, obs.B, obs.C = 2, code, reason, status
-	case errors.Is(closeErr, io.ErrUnexpectedEOF):
+	// the end of the transport is reported as io.EOF / io.ErrUnexpectedEOF and answered with status 1000; a truncated
+	// DEFLATE stream makes the inflater report io.ErrUnexpectedEOF too, but that is a failed message (status 1011)
+	case errors.Is(closeErr, io.ErrUnexpectedEOF) && status == 1000:
 		obs.Kind, obs.A, obs.C = 0, 1, status
-	case errors.Is(closeErr, io.EOF):
+	case errors.Is(closeErr, io.EOF) && status == 1000:
 		obs.Kind, obs.A, obs.C = 0, 0, status
 	default:
 		obs.Kind, obs.A = 1, status
@@ -416,11 +418,6 @@ func judgeInbound(o specOutcome, obs inObs) (string, string) {
 		return fmt.Sprintf("stream ended inside/at a frame boundary, but connection ended kind=%d status=%d", obs.Kind, obs.A), "eof-handling"
 	case "fail":
 		if obs.Kind == 1 && o.Allowed[obs.A] {
-			return "", ""
-		}
-		// a truncated deflate stream makes the inflater itself report io.ErrUnexpectedEOF: that is a failure of
-		// the message, not the end of the transport; the status gws wrote decides
-		if obs.Kind == 0 && obs.A == 1 && o.Allowed[obs.C] {
 			return "", ""
 		}
 		return fmt.Sprintf("%s: connection ended kind=%d status=%d, acceptable statuses %v", o.Why, obs.Kind, obs.A, keys(o.Allowed)), "fail-status"
